@@ -1313,8 +1313,9 @@ def labelled(cx):
             problems = []
             if not np.array_equal(T.data, data) or T.inds != inds:
                 problems.append("the input tensor was modified")
+            size = dict(zip(inds, data.shape))
             return _normalise_labelled(out, get, form, absorb, msv, bond, linds, r_eff, xm.shape, tags, ltags, rtags, stags, inds,
-                                       info, problems)
+                                       info, problems, lshape=[size[ix] for ix in linds], rshape=[size[ix] for ix in r_eff])
 
         lz = Lazy(call)
         st = cx.check(f"{entry}: accepted call returns factors over the requested labels joined by one new bond (labels, "
@@ -1323,7 +1324,6 @@ def labelled(cx):
         if st == "rejected" or lz.failed:
             continue
         lz_res = Lazy(lambda lz=lz: [lz.get()[0]])
-        lz_res.get()
         _array_contracts(cx, entry, params, lz_res, [xm], method, form, dtype, cutoff=ecut, mode=emode, max_bond=emb, renorm=ern,
                          allow_reject=False, dynamic=True, want_error=with_info)
         if get != "arrays":
@@ -1411,8 +1411,10 @@ def labelled(cx):
             tn = qtn.TensorNetwork([qtn.Tensor(A, "abx", tags="A"), qtn.Tensor(B, "xcd", tags="B")])
             out = tn.split(list(linds), right_inds=list(rinds), method=method, absorb=absorb, cutoff=cutoff, cutoff_mode="rel",
                            max_bond=max_bond, get="tensors")
+            size = dict(a=A.shape[0], b=A.shape[1], c=B.shape[1], d=B.shape[2])
             return _normalise_labelled(out, "tensors", form, absorb, False, None, linds, rinds, xm.shape, ("A", "B"), None, None,
-                                       None, ("a", "b", "c", "d"), None, [])
+                                       None, ("a", "b", "c", "d"), None, [], lshape=[size[ix] for ix in linds],
+                                       rshape=[size[ix] for ix in rinds])
 
         lz = Lazy(call)
         st = cx.check("TensorNetwork.split: accepted call returns factors over the requested labels joined by one new bond",
@@ -1426,7 +1428,8 @@ def labelled(cx):
                  params, lambda lz=lz, dtype=dtype, method=method: _flag_check(lz.get()[2], 10 * _tols(method, dtype)["iso"]))
 
 
-def _normalise_labelled(out, get, form, absorb, msv, bond, linds, rinds, mn, tags, ltags, rtags, stags, in_inds, info, problems):
+def _normalise_labelled(out, get, form, absorb, msv, bond, linds, rinds, mn, tags, ltags, rtags, stags, in_inds, info, problems,
+                        lshape=None, rshape=None):
     """-> (Res, list of label problems, list of returned tensors (data, inds, left_inds))"""
     m, n = mn
     # tensor_split returns (left, s, right) only when ``absorb is None`` -- the documented alias 'U,s,VH' must behave the same
@@ -1508,6 +1511,8 @@ def _normalise_labelled(out, get, form, absorb, msv, bond, linds, rinds, mn, tag
         aL = np.asarray(aL)
         if aL.ndim != len(linds) + 1:
             problems.append(f"left factor has {aL.ndim} axes, expected {len(linds) + 1}")
+        elif lshape is not None and tuple(aL.shape[:-1]) != tuple(lshape):
+            problems.append(f"left factor shape {aL.shape}, expected {(*lshape, 'k')} (one axis per left label, in order)")
         else:
             L = aL.reshape(m, aL.shape[-1]) if int(np.prod(aL.shape[:-1], dtype=int)) == m else None
             if L is None:
@@ -1516,6 +1521,8 @@ def _normalise_labelled(out, get, form, absorb, msv, bond, linds, rinds, mn, tag
         aR = np.asarray(aR)
         if aR.ndim != len(rinds) + 1:
             problems.append(f"right factor has {aR.ndim} axes, expected {len(rinds) + 1}")
+        elif rshape is not None and tuple(aR.shape[1:]) != tuple(rshape):
+            problems.append(f"right factor shape {aR.shape}, expected {('k', *rshape)} (one axis per right label, in order)")
         else:
             R = aR.reshape(aR.shape[0], n) if int(np.prod(aR.shape[1:], dtype=int)) == n else None
             if R is None:
